@@ -114,6 +114,11 @@ def build_alphabet(lab, which=0):
             dsib = "/".join(pa[:-1] + [dn])
             if model.natural(dsib) is model.natural(anc[2]):
                 al[dk] = dsib
+        # two siblings with LONG names that differ only in their last characters (whole paths beyond 260 characters)
+        for lk, ln in (("L1", "set_dressing_" + "x" * 205 + "_north_side"), ("L2", "set_dressing_" + "x" * 205 + "_south_side")):
+            lsib = "/".join(pa[:-1] + [ln])
+            if model.natural(lsib) is model.natural(anc[2]):
+                al[lk] = lsib
         dd = "/".join(pa[:-1] + [".."])
         if model.natural(dd) is model.natural(anc[2]):
             al["DD"] = dd      # observed only: '..' names a folder that is there without anything having been created
@@ -271,6 +276,12 @@ def run_sequence(rec, lab, al, ops, hid, fresh=False, config=None):
     for step, (op, role, key) in enumerate(ops):
         e = al[role]
         val = "%s.%d" % (hid, step)
+        if step % 4 == 2:
+            val = "r\u00e9sum\u00e9 \u65e5\u672c " + val            # text is not ASCII
+            rec.count("non_ascii_values")
+        elif step % 7 == 5:
+            val = "scan_\udce9_" + val                              # what os.fsdecode gives for a badly encoded file name (lone surrogate)
+            rec.count("lone_surrogate_values")
         if op == "setpos":
             val = FALSY[step % len(FALSY)]
         data = {key: val} if key else None
@@ -375,8 +386,13 @@ def run_sequence(rec, lab, al, ops, hid, fresh=False, config=None):
             rec.count("fresh_process_reads")
             code = ("import json,sys\nimport spil\nfrom spil import GetFromPaths\n"
                     "print('RESULT'+json.dumps({e: dict(GetFromPaths(%r).get_data(e)) for e in %r}))" % (config, sorted(al.values())))
+            fenv = dict(os.environ)
+            if len(ops) % 2:
+                # the new process runs on a workstation whose locale is not UTF-8 (C locale, UTF-8 mode off)
+                fenv.update({"LC_ALL": "C", "LANG": "C", "PYTHONUTF8": "0", "PYTHONCOERCECLOCALE": "0"})
+                rec.count("fresh_process_reads_in_C_locale")
             p = subprocess.run([sys.executable, "-c", code], stdout=subprocess.PIPE, stderr=subprocess.PIPE, timeout=120,
-                               env=dict(os.environ))
+                               env=fenv)
             line = [l for l in p.stdout.decode().splitlines() if l.startswith("RESULT")]
             if not line:
                 rec.inconclusive.append("fresh process read failed: " + p.stderr.decode()[-300:])
